@@ -224,8 +224,15 @@ class Interp:
                             info[kw.arg] = self.eval(kw.value, env)
                         except Unsupported:
                             pass
+            if isinstance(s.exc, ast.Name):          # `raise e`: re-raise of a caught exception object with its (possibly updated) fields
+                try:
+                    ev = env.lookup(s.exc.id)
+                    if isinstance(ev, Opaque):
+                        info = dict(ev.fields)
+                except KeyError:
+                    pass
             self.ctx.last_raise = info
-            raise PathEnd("raise", name, s)
+            raise PathEnd("raise", name, s, info=info)
         elif isinstance(s, ast.Pass):
             pass
         elif isinstance(s, ast.For):
@@ -646,7 +653,9 @@ class Interp:
                     names = [self.exc_name(h.type, env)]
                 if names is None or e.value in names or "Exception" in names:
                     if h.name:
-                        env.vars[h.name] = Opaque(e.value)
+                        ex = Opaque(e.value)
+                        ex.fields.update(e.info or {})
+                        env.vars[h.name] = ex
                     self.exec_block(h.body, env)
                     return
             raise
